@@ -80,7 +80,7 @@ class _Placeholder(types.ModuleType):
 SKIPINIT = {'edb.schema', 'edb.edgeql', 'edb.server.compiler', 'edb.pgsql', 'edb.ir', 'edb.server'}
 REAL = {'edb.server.compiler.dbstate', 'edb.server.compiler.compiler', 'edb.server.compiler.enums',
         'edb.edgeql.ast', 'edb.edgeql.qltypes', 'edb.schema.defines', 'edb.server.defines',
-        'edb.pgsql.params'}
+        'edb.pgsql.params', 'edb.server.args', 'edb.server.metrics'}
 PLACEHOLDER_ROOTS = {'edb._edgeql_parser', 'edb.common.turbo_uuid', 'edb.graphql'}
 
 
@@ -367,12 +367,103 @@ def load(patches=None):
     dbstate.time = tp
     compiler.time = tp
 
+    # ---- pooled mode: the real compiler pool around the real compiler ----
+    # (rpc.CompilationRequest.serialize/deserialize is a stand-in: the
+    # "serialized request" is a key into an in-process table)
+    requests = {}
+    import edb.server.compiler.rpc as rpc
+
+    class FakeRpcRequest:
+        @staticmethod
+        def deserialize(data, original_query, serializer):
+            return requests[data]
+
+    rpc.CompilationRequest = FakeRpcRequest
+    CS.compilation_config_serializer = None
+    import edb.server.compiler as compiler_pkg
+    compiler_pkg.new_compiler = lambda *a, **k: compiler.Compiler(CS())
+    compiler_pkg.Compiler = compiler.Compiler
+    compiler_pkg.dbstate = dbstate
+    pool_mods, wcode = _load_compiler_pool(patches)
+
     _FROZEN[0] = True
     _state.update(
         key=repr(patches), errors=errors, qlast=qlast, qltypes=qltypes, dbstate=dbstate,
         compiler=compiler, enums=enums, observed=observed, mkddl=mkddl, FakeQuery=FakeQuery,
         mkconfig=mkconfig, Req=Req, C=compiler.Compiler(CS()), time=tp,
         FlatSchema=FlatSchema, DEFAULT_ALIASES=compiler.DEFAULT_MODULE_ALIASES_MAP,
-        EMPTY=immutables.Map(),
+        EMPTY=immutables.Map(), requests=requests, mods=pool_mods, wcode=wcode,
     )
     return _state
+
+
+def _load_compiler_pool(patches):
+    """Load edb/server/compiler_pool/{state,amsg,queue,worker_proc,pool}.py for
+    real (from the working tree, with the same in-memory patches) next to the
+    real compiler; worker.py is compiled once and exec'd per simulated process."""
+    pkg = 'edb.server.compiler_pool'
+    for name, attrs in (
+        ('edb.common.markup', {'dump': lambda *a, **k: None}),
+        ('edb.common.uuidgen', {'uuid4': lambda: uuid.UUID(int=3), 'UUID': uuid.UUID}),
+    ):
+        m = types.ModuleType(name)
+        m.__dict__.update(attrs)
+        sys.modules[name] = m
+    cp = types.ModuleType(pkg)
+    cp.__path__ = [os.path.join(REPO, 'edb/server/compiler_pool')]
+    cp.__package__ = pkg
+    sys.modules[pkg] = cp
+    import edb.server as srv
+    srv.compiler_pool = cp
+    mods = {}
+    src = {}
+    for rel in ('state', 'amsg', 'queue', 'worker_proc', 'pool', 'worker'):
+        relpath = f'edb/server/compiler_pool/{rel}.py'
+        src[rel] = island.apply_patches(island.read_source(relpath), patches, relpath)
+    for rel in ('state', 'amsg', 'queue', 'worker_proc', 'pool'):
+        name = f'{pkg}.{rel}'
+        m = types.ModuleType(name)
+        m.__file__ = os.path.join(REPO, f'edb/server/compiler_pool/{rel}.py')
+        m.__package__ = pkg
+        sys.modules[name] = m
+        setattr(cp, rel, m)
+        exec(compile(src[rel], m.__file__, 'exec', dont_inherit=True), m.__dict__)
+        mods[rel] = m
+    null = island.NullLogger()
+    mods['pool'].logger = null
+    mods['pool'].log_metrics = null
+    ptime = island.TimeProxy()
+    mods['pool'].time = ptime
+    mods['pool_time'] = ptime
+    wcode = {'worker': compile(src['worker'], os.path.join(REPO, 'edb/server/compiler_pool/worker.py'),
+                               'exec', dont_inherit=True)}
+    return mods, wcode
+
+
+_wcount = [0]
+SIM = None
+
+
+def new_worker_module(kind):
+    _wcount[0] += 1
+    pkg = 'edb.server.compiler_pool'
+    m = types.ModuleType(f'{pkg}.{kind}__proc{_wcount[0]}')
+    m.__package__ = pkg
+    m.__file__ = os.path.join(REPO, f'edb/server/compiler_pool/{kind}.py')
+    exec(_state['wcode'][kind], m.__dict__)
+    return m
+
+
+class PickleProxy:
+    """Pass-through ``pickle`` (the pooled C09 stratum injects no pickle faults)."""
+    import pickle as _p
+    PicklingError = _p.PicklingError
+    UnpicklingError = _p.UnpicklingError
+    PickleError = _p.PickleError
+    HIGHEST_PROTOCOL = _p.HIGHEST_PROTOCOL
+    DEFAULT_PROTOCOL = _p.DEFAULT_PROTOCOL
+    loads = staticmethod(_p.loads)
+    dumps = staticmethod(_p.dumps)
+
+    def __init__(self, site, hook):
+        pass
